@@ -417,6 +417,49 @@ pub fn candidates(p: &Position) -> Vec<Candidate> {
     v
 }
 
+/// For C13 ("no other output is rebroadcast"): at every chain position (rebroadcasts due or not)
+/// an attacker-produced block carries a rebroadcast-typed transaction that moves the victim's
+/// output, or creates value, with Normal- or ATR-typed outputs. None may be accepted.
+pub fn forged_rebroadcasts(rep: &mut Report, tier: &Tier) {
+    let ps = match positions(tier) {
+        Ok(p) => p,
+        Err(e) => {
+            rep.machinery(format!("forged rebroadcasts: {}", e));
+            return;
+        }
+    };
+    for p in ps.iter() {
+        let due = p.w.blocks[p.tip].id + 1 > p.w.cfg.consensus.genesis_period + 1;
+        for c in candidates(p).into_iter().filter(|c| c.edit.ends_with("typed-ATR")) {
+            for atr_outputs in [false, true] {
+                let mut c2 = Candidate { edit: format!("{}{}", c.edit, if atr_outputs { "/atr-typed-outputs" } else { "" }), tx: c.tx.clone(), tx2: None, control: false };
+                if atr_outputs {
+                    for s in c2.tx.to.iter_mut() {
+                        s.slip_type = SlipType::ATR;
+                    }
+                    c2.tx.sign(&key(ATTACKER).private);
+                }
+                for (first, side) in [(false, false), (true, false), (false, true)] {
+                    if side && p.side.is_none() {
+                        continue;
+                    }
+                    rep.evaluations += 1;
+                    let (v, d) = gate_block(&p.w, p, p.tip, &c2, first, side);
+                    let gate = if side { "side-chain" } else if first { "tip-first" } else { "tip" };
+                    match v {
+                        Verdict::Accepted => rep.violate(&format!("forged-rebroadcast-accepted/{}/{}", c2.edit, if due { "rebroadcasts-due" } else { "no-rebroadcast-due" }), format!("{} at {} through block:{}", c2.edit, p.name, gate), json!({"position": p.name, "edit": c2.edit, "gate": gate})),
+                        Verdict::Abort(m) => rep.violate(&format!("abort/forged-rebroadcast/{}", c2.edit), format!("{} at {} through block:{}: {}", c2.edit, p.name, gate, m), json!({"position": p.name, "edit": c2.edit, "gate": gate})),
+                        Verdict::Rejected => {
+                            let _ = d;
+                            rep.outcome(if due { "forged-rebroadcast-refused:rebroadcasts-due" } else { "forged-rebroadcast-refused:no-rebroadcast-due" });
+                        }
+                    }
+                }
+            }
+        }
+    }
+}
+
 pub fn verifier(n: &LedgerNode) -> (VerificationThread, tokio::sync::mpsc::Receiver<ConsensusEvent>, tokio::sync::mpsc::Receiver<String>) {
     let (s, r) = tokio::sync::mpsc::channel(1000);
     let (ss, sr) = tokio::sync::mpsc::channel(1000);
